@@ -7,7 +7,8 @@
 (* is an invariant of the pool; NoSharing speaks about label-set identities and is       *)
 (* checked on the recorded projections (TraceKripke).                                    *)
 EXTENDS Kripke, Json
-CONSTANTS Nodes, AP, MaxObjs, Depth
+CONSTANTS Nodes, AP, MaxObjs, Depth,
+          Mutators     \* TRUE: include the inherited mutators and label_add (spec growth; KripkeInv then fails, as in the code)
 VARIABLES pool, hist, args
 vars == <<pool, hist, args>>
 Objs == 1..MaxObjs
@@ -32,16 +33,32 @@ SubOutcome(K, V) ==
   LET S2 == V \cap K.S
       R2 == {e \in K.R : e[1] \in V /\ e[2] \in V}
   IN IF \E s \in S2 : SuccIn(R2, s) = {} THEN [exc |-> "RuntimeError"]
-     ELSE [ret |-> [S |-> S2, S0 |-> V \cap K.S0, R |-> R2, L |-> [s \in S2 |-> K.L[s]]]]
+     ELSE [ret |-> [S |-> S2, S0 |-> V \cap K.S0, R |-> R2, L |-> [s \in S2 |-> IF s \in DOMAIN K.L THEN K.L[s] ELSE {}]]]
 Outcome(K, c) ==
-  CASE c.op = "clone"  -> [ret |-> K]
+  CASE c.op = "clone"  -> CtorOutcome(K.S, K.S0, K.R, K.L)     \* clone() goes through the constructor: raises if K is no longer total
     [] c.op = "sub"    -> SubOutcome(K, c.X)
-    [] c.op = "labels" -> IF c.v \in K.S THEN [ret |-> K.L[c.v]] ELSE [exc |-> "RuntimeError"]
+    [] c.op = "labels" -> IF c.v \notin K.S THEN [exc |-> "RuntimeError"]
+                          ELSE IF c.v \in DOMAIN K.L THEN [ret |-> K.L[c.v]]
+                          ELSE [exc |-> "KeyError"]          \* as coded: a state added through DiGraph.add_node/add_edge has no label entry
+    [] c.op = "add_node" -> IF c.v \in K.S THEN [exc |-> "RuntimeError"] ELSE [ret |-> "none"]
+    [] c.op = "add_edge" -> IF <<c.s, c.d>> \in K.R THEN [exc |-> "RuntimeError"] ELSE [ret |-> "none"]
+    [] c.op = "label_add" -> IF c.v \in DOMAIN K.L THEN [ret |-> "none"] ELSE [exc |-> (IF c.v \in K.S THEN "KeyError" ELSE "RuntimeError")]
     [] c.op = "next"   -> IF c.v \in K.S THEN [ret |-> SuccIn(K.R, c.v)] ELSE [exc |-> "RuntimeError"]
     [] c.op = "states" -> [ret |-> K.S]
     [] c.op = "transitions" -> [ret |-> K.R]
-    [] c.op = "alllabels" -> [ret |-> UNION {K.L[s] : s \in K.S}]
+    [] c.op = "alllabels" -> [ret |-> UNION {K.L[s] : s \in DOMAIN K.L}]
 MakesObject(op) == op \in {"clone", "sub"}
+\* ---- spec growth beyond the listed properties: Kripke INHERITS DiGraph's mutators, and labels(s) hands out
+\* the internal set.  The model says what the code does (named deviations from the class invariant):
+\*   add_node(v)    adds a state with no successor and no label entry            (breaks totality and labelling)
+\*   add_edge(s,d)  adds the edge and any missing endpoint, again without label entries
+\*   label_add      the caller adds an atom to the set returned by labels(v): the structure changes
+Effect(K, c) ==
+  CASE c.op = "add_node" /\ c.v \notin K.S -> [K EXCEPT !.S = @ \cup {c.v}]
+    [] c.op = "add_edge" /\ <<c.s, c.d>> \notin K.R -> [K EXCEPT !.S = @ \cup {c.s, c.d}, !.R = @ \cup {<<c.s, c.d>>}]
+    [] c.op = "label_add" /\ c.v \in DOMAIN K.L -> [K EXCEPT !.L = [@ EXCEPT ![c.v] = @ \cup {c.a}]]
+    [] OTHER -> K
+IsMutator(op) == op \in {"add_node", "add_edge", "label_add"}
 
 Init == pool = <<>> /\ hist = <<>> /\ args = <<>>
 \* constructor arguments are chosen component by component (keeps simulation cheap)
@@ -61,12 +78,16 @@ New == /\ Len(args) = 4
 Call(g, c) == /\ g \in Live /\ args = <<>>
               /\ MakesObject(c.op) => Live # Objs
               /\ LET o == Outcome(pool[g], c) IN
-                 /\ pool' = IF MakesObject(c.op) /\ "ret" \in DOMAIN o THEN Put(pool, FreeId, o.ret) ELSE pool
+                 /\ pool' = IF MakesObject(c.op) /\ "ret" \in DOMAIN o THEN Put(pool, FreeId, o.ret)
+                            ELSE IF IsMutator(c.op) THEN Put(pool, g, Effect(pool[g], c)) ELSE pool
                  /\ hist' = Append(hist, c @@ [g |-> g] @@ (IF MakesObject(c.op) THEN [new |-> FreeId] ELSE <<>>))
               /\ UNCHANGED args
 Drop(g) == /\ g \in Live /\ args = <<>> /\ pool' = [x \in Live \ {g} |-> pool[x]]
            /\ hist' = Append(hist, [op |-> "drop", g |-> g]) /\ UNCHANGED args
-Calls == {[op |-> "sub", X |-> X] : X \in SUBSET Nodes}
+MutCalls == IF Mutators THEN {[op |-> "add_node", v |-> v] : v \in Nodes} \cup {[op |-> "add_edge", s |-> a, d |-> b] : a \in Nodes, b \in Nodes}
+                           \cup {[op |-> "label_add", v |-> v, a |-> a] : v \in Nodes, a \in AP}
+            ELSE {}
+Calls == MutCalls \cup {[op |-> "sub", X |-> X] : X \in SUBSET Nodes}
          \cup {[op |-> o, v |-> v] : o \in {"labels", "next"}, v \in Nodes}
          \cup {[op |-> o] : o \in {"clone", "states", "transitions", "alllabels"}}
 Next == Pick \/ New \/ (\E g \in Objs, c \in Calls : Call(g, c)) \/ (\E g \in Objs : Drop(g))
@@ -74,7 +95,7 @@ Spec == Init /\ [][Next]_vars
 \* C14: every structure that exists is total, fully labelled, with initial states among its states
 KripkeInv == \A g \in Live : KripkeInvOf(pool[g])
 \* no call changes an existing structure (all of kripke.py's public calls used here are queries)
-Pure == [][\A g \in Live : g \in DOMAIN pool' => pool'[g] = pool[g]]_vars
+Pure == [][(Len(hist') = Len(hist) + 1 /\ ~IsMutator(hist'[Len(hist')].op)) => \A g \in Live : g \in DOMAIN pool' => pool'[g] = pool[g]]_vars
 Emit == (Len(hist) = Depth) => PrintT(<<"BEHAVIOUR", ToJson(hist)>>)
 Bound == Len(hist) < Depth \/ (Len(hist) = Depth /\ args = <<>>)
 =======================================================================
